@@ -16,6 +16,7 @@ import (
 	"runtime"
 	"sort"
 	"strings"
+	"sync"
 	"testing"
 	"testing/synctest"
 	"time"
@@ -155,6 +156,9 @@ type Kernel struct {
 	tapePos  int
 	events   eventHeap
 	evSeq    uint64
+	afSeq    uint64 // time.AfterFunc timers made so far
+	adoptMu  sync.Mutex
+	adopt    []adopted // callbacks of timers that fired and are not started yet
 	Step     uint64
 	Start    time.Time
 
@@ -564,6 +568,7 @@ func (k *Kernel) collect() {
 	synctest.Wait()
 	raceAcquire(&kernelSync)
 	k.inKernel = true
+	k.startAdopted()
 	for _, g := range k.gs {
 		switch g.state {
 		case gExited:
